@@ -373,7 +373,11 @@ func (m *MonC08) staleLoadErrors(w *World) []Violation {
 			failed := false
 			for _, e := range log[r1.SentT:r1.RespT] {
 				if e.Kind == "mq_complete" && e.Subject == "get."+name && (e.Err != "" || strings.Contains(string(e.Payload), `"error"`)) {
-					failed = true
+					// ... and it is that failure the response reports (not, say, the
+					// access request's timeout)
+					if (e.Err != "" && r1.Error.Code == "system.timeout") || strings.Contains(string(e.Payload), `"code":"`+r1.Error.Code+`"`) {
+						failed = true
+					}
 				}
 			}
 			if !failed || c.Ref.Direct[r1.RID] != 0 {
@@ -414,6 +418,13 @@ func (m *MonC08) staleLoadErrors(w *World) []Violation {
 				for _, e := range log[r1.RespT:r2.RespT] {
 					// a fresh evaluation requests the resource anew (whatever then fails)
 					if e.Kind == "mq_req" && e.Subject == "get."+name {
+						answered = true
+					}
+				}
+				for _, e := range log[r2.SentT:r2.RespT] {
+					// ... or waits for one another connection has requested meanwhile
+					// (an HTTP request for the same resource) to be answered
+					if e.Kind == "mq_complete" && e.Subject == "get."+name {
 						answered = true
 					}
 				}
